@@ -2,7 +2,7 @@
 import json
 
 from .. import x as X
-from .storebase import StoreProfile, gen_search, near_miss, JUNK_KINDS
+from .storebase import StoreProfile, gen_search, near_miss, typed_prefixes, JUNK_KINDS
 
 
 def answer(obs):
@@ -59,6 +59,10 @@ class FindersProfile(StoreProfile):
                 return st
         base = rng.choice(ents)
         if rng.random() < 0.15:
+            extra = typed_prefixes(m, ents)     # levels without a path (constant-backed state level ...)
+            if extra:
+                base = rng.choice(extra)
+        elif rng.random() < 0.15:
             # a base that does not exist: same shape, fresh values
             t = m.natural_type(base)
             from .base import gen_sid
